@@ -235,6 +235,7 @@ enum AOp {
     Reg(u64),
     Add { u: i64, loc: u64, key: u64, pay: i64, len: u64, delay: u32 },
     Get { u: i64, loc: u64 },
+    GetSub(i64),
     Connect { hash: u64, txs: Vec<u64> },
     Disconnect,
 }
@@ -257,6 +258,7 @@ fn materialise(w: &mut World, op: &AOp) -> Op {
             Op::Add { signer: *u, class: 0, loc: *loc, blob, delay: *delay }
         }
         AOp::Get { u, loc } => Op::Get { signer: *u, class: 0, loc: *loc },
+        AOp::GetSub(u) => Op::GetSub { signer: *u, class: 0 },
         AOp::Connect { hash, txs } => Op::Connect { hash: *hash, txs: txs.clone() },
         AOp::Disconnect => Op::Disconnect,
     }
@@ -450,6 +452,40 @@ fn cases(thorough: bool) -> Vec<Case> {
     with("add-new||connect-purge", purge_cfg, purge_pre.clone(), vec![vec![a18.clone()], vec![c_purge.clone()]], none.clone(), pb);
     with("add-update||connect-purge", purge_cfg, purge_pre.clone(), vec![vec![a17big.clone()], vec![c_purge.clone()]], none.clone(), pb);
     with("get||connect-purge", purge_cfg, purge_pre.clone(), vec![vec![g17.clone()], vec![c_purge.clone()]], none.clone(), pb);
+    // ---- the block at whose height the subscription expires (duration 2, grace 10: registered at 120, expiry 122,
+    //      tip 121; block 122 makes the subscription expire and purges nobody).  While that block is being processed
+    //      the gatekeeper is already at 122 and the watcher still at 121: the expiry test of a request that falls in
+    //      between must use the gatekeeper's height (the request is refused as expired), not the watcher's.
+    let expiry_cfg = Cfg { slots: SLOTS, duration: 2, delta: 10 };
+    let expiry_pre = vec![
+        (AOp::Reg(1), none.clone()),
+        (a17.clone(), none.clone()),
+        (AOp::Connect { hash: 2020, txs: vec![] }, none.clone()),
+    ];
+    let c_expiry = AOp::Connect { hash: 2021, txs: vec![] };
+    with("add-new||connect-expiry", expiry_cfg, expiry_pre.clone(), vec![vec![a18.clone()], vec![c_expiry.clone()]], none.clone(), pb);
+    with("add-update||connect-expiry", expiry_cfg, expiry_pre.clone(), vec![vec![a17big.clone()], vec![c_expiry.clone()]], none.clone(), pb);
+    with("get||connect-expiry", expiry_cfg, expiry_pre.clone(), vec![vec![g17.clone()], vec![c_expiry.clone()]], none.clone(), pb);
+    with("getsub||connect-expiry", expiry_cfg, expiry_pre.clone(), vec![vec![AOp::GetSub(1)], vec![c_expiry.clone()]], none.clone(), pb);
+    with(
+        "add-new||connect-expiry-dispute",
+        expiry_cfg,
+        expiry_pre.clone(),
+        vec![vec![a18.clone()], vec![AOp::Connect { hash: 2022, txs: vec![8] }]],
+        none.clone(),
+        pb,
+    );
+    with(
+        "add-update||connect-expiry-dispute",
+        expiry_cfg,
+        expiry_pre.clone(),
+        vec![vec![a17big.clone()], vec![AOp::Connect { hash: 2023, txs: vec![7] }]],
+        none.clone(),
+        pb,
+    );
+    // get_subscription_info away from the boundary
+    with("getsub||connect-empty", std_cfg(), vec![reg12.clone(), vec![(a17.clone(), none.clone())]].concat(), vec![vec![AOp::GetSub(1)], vec![c_empty.clone()]], none.clone(), pb);
+    with("getsub||connect-purge", purge_cfg, purge_pre.clone(), vec![vec![AOp::GetSub(1)], vec![c_purge.clone()]], none.clone(), pb);
     // ---- the block that completes a tracker (refund) : tracker confirmed at 122, completed by block 222
     let mut complete_pre = vec![
         (AOp::Reg(1), none.clone()),
